@@ -13,5 +13,6 @@ CONSTANTS
   Overflow = TRUE
   MaxLen = 80
   LateRounds = 1
+  W2Window = {}
 SPECIFICATION GSpec
 INVARIANTS EmitInv
